@@ -469,8 +469,13 @@ def run(chk, model_ok):
             c, r, explained = lit_cases[i]
             if explained:
                 continue
+            try:
+                diag = lib.coq_eval(REQ, f"diag_case {lits[i]}").split("=")[-1].split(":")[0].strip()
+            except Exception as e:  # noqa
+                diag = "?"
             chk.fail("correspondence", "model-vs-impl",
-                     "model and implementation disagree (derivation trace, reported file names, write outcome or file effects)",
+                     f"model and implementation disagree (diagnosis {diag}: 1 initial aggregates, 10+k / 500+k step k or "
+                     "its reported file names, 1000 error class, 1001 file effects)",
                      {"correspondence": "C10.Run.check_case", "input": {"case": c},
                       "observed": {"steps": [{k: v for k, v in s.items() if k != "tree"} for s in r["steps"]],
                                    "fault": r["fault"], "error": r["error"], "effects": effects(r),
